@@ -17,7 +17,7 @@ from .terms import Child, Const, Fn, New, Sym, Term, Val
 def _unwrap_depends(r):
     """(inner node, [dependency terms]) of a _DependsOn(...) wrapper term."""
     from .terms import Seq
-    if isinstance(r, New) and r.cls.name == "_DependsOn":
+    if isinstance(r, New) and {"evaluatable", "depends"} <= set(r.attrs):      # the dependency-carrying wrapper of conditional.py
         d = r.attrs.get("depends")
         from .interp import Coll
         if isinstance(d, Coll):
@@ -774,9 +774,10 @@ def rule_RG(run: Run) -> RuleResult:
     ok = False
     bo_line = fn.lineno
     for b_ in bodies_:
-        for n in ast.walk(b_):
-            if isinstance(n, ast.If) and any(isinstance(x, ast.Compare) and len(x.ops) == 1 and isinstance(x.ops[0], ast.NotIn) for x in ast.walk(n.test)) \
-                    and any(isinstance(s_, ast.Raise) for s_ in n.body):
+        for n, t_ in astu.effective_tests(b_):
+            # a membership test of the member name (in either polarity / De Morgan form) that guards a raise
+            if any(isinstance(x, ast.Compare) and len(x.ops) == 1 and isinstance(x.ops[0], (ast.NotIn, ast.In)) for x in ast.walk(t_)) \
+                    and (any(isinstance(s_, ast.Raise) for s_ in n.body) or any(isinstance(s_, ast.Raise) for s_ in n.orelse)):
                 ok = True
                 bo_line = n.lineno
     res.add("labrea.interface._build_overloads:unknown member rejected", ok, im.module.relpath, bo_line, "if key not in members: raise TypeError", nec)
